@@ -197,6 +197,25 @@ def felt_from_int(interp, i):
         return F(Lin({}, x % P))
     bits = INT_BITS[i.ty] if isinstance(i, I) else 64
     ctx = interp.ctx
+    # Felt::new(f.as_int()) and friends: the integer is (after simplification) the canonical value
+    # of a field element the encoding already knows - keep its linear form (and monomial identity)
+    xs = z3.simplify(x)
+    back = ctx.lin_of_value(xs)
+    if back is not None:
+        return F(back)
+    if z3.is_int_value(xs):
+        return F(Lin({}, xs.as_long() % P))
+    # the same, when the equality with a known field value needs arithmetic reasoning (e.g. the
+    # wrapping `(x - 1) * 1 + 1` of op_expacc): ask the solver for each field value occurring in xs
+    xf = z3.If(xs >= P, xs - P, xs) if bits > 32 else xs
+    for cand in _field_consts(ctx, xs):
+        interp.sync_side()
+        interp.solver.push()
+        interp.solver.add(xf != cand)
+        r = interp.solver.check()
+        interp.solver.pop()
+        if r == z3.unsat:
+            return F(ctx.lin_of_value(cand))
     name = interp.fresh("fe")
     a = ctx.var(name)
     za = ctx.atoms[name]
@@ -207,6 +226,22 @@ def felt_from_int(interp, i):
     ctx.int_defs = getattr(ctx, "int_defs", {})
     ctx.int_defs[name] = x
     return F(a)
+
+
+def _field_consts(ctx, e, limit=4):
+    """z3 constants inside e that are field values known to the encoding"""
+    out, seen, todo = [], set(), [e]
+    while todo and len(out) < limit:
+        t = todo.pop()
+        if t.get_id() in seen:
+            continue
+        seen.add(t.get_id())
+        if z3.is_const(t) and t.decl().kind() == z3.Z3_OP_UNINTERPRETED:
+            if ctx.lin_of_value(t) is not None:
+                out.append(t)
+            continue
+        todo.extend(t.children())
+    return out
 
 
 def n_as_int(interp, args, dty, m):
@@ -531,6 +566,34 @@ def n_chiplets(kind):
     return h
 
 
+def n_chiplets_bitwise(kind):
+    """Chiplets::u32and / u32xor: the bitwise chiplet's processor side (Bitwise::u32and rejects
+    operands that are not u32 values and returns the bitwise result); modelled exactly with
+    bit-vector semantics.  The chiplet's constraints are C04's obligation."""
+    def h(interp, args, dty, m):
+        a, b = deref(args[1]), deref(args[2])
+        ctx = interp.ctx
+        av, bvv = ctx.value(a.l), ctx.value(b.l)
+        interp.events.append(("chiplets", m.group(0), [a, b]))
+        if interp.decide(av >= 2**32):
+            return En("Err", [En("NotU32Value", [a, F(Lin({}, 0))], ty="ExecutionError")], ty="Result")
+        if interp.decide(bvv >= 2**32):
+            return En("Err", [En("NotU32Value", [b, F(Lin({}, 0))], ty="ExecutionError")], ty="Result")
+        x, y = z3.Int2BV(av, 32), z3.Int2BV(bvv, 32)
+        r = z3.BV2Int(x & y if kind == "and" else x ^ y)
+        name = interp.fresh("bw")
+        res = ctx.var(name, 2**32 - 1)
+        ctx.side.append(ctx.atoms[name] == r)
+        # companion identities of 32-bit words (a|b = a + b - (a&b), a^b = a + b - 2(a&b)): true facts
+        # stated here so that queries mixing integer arithmetic with the bit-level result stay cheap
+        if kind == "and":
+            ctx.side.append(av + bvv - ctx.atoms[name] == z3.BV2Int(x | y))
+        else:
+            ctx.side.append(av + bvv - ctx.atoms[name] == 2 * z3.BV2Int(x & y))
+        return En("Ok", [F(res)], ty="Result")
+    return h
+
+
 def n_opaque(interp, args, dty, m):
     return Opaque(m.group(0)[:40])
 
@@ -615,7 +678,8 @@ NATIVES = [
     (R(r"Chiplets::read_mem"), n_chiplets("word")),
     (R(r"Chiplets::read_mem_double"), n_chiplets("dword")),
     (R(r"Chiplets::write_mem|Chiplets::write_mem_element|Chiplets::write_mem_double"), n_chiplets("unit")),
-    (R(r"Chiplets::u32and|Chiplets::u32xor"), n_chiplets("felt_result")),
+    (R(r"Chiplets::u32and"), n_chiplets_bitwise("and")),
+    (R(r"Chiplets::u32xor"), n_chiplets_bitwise("xor")),
     (R(r"Arguments::<'_>::\w+(?:::<.*>)?|core::fmt::rt::.*|Argument::<'_>::\w+(?:::<.*>)?"), n_opaque),
     (R(r"<(?:system::)?ContextId as From<u32>>::from|<u32 as Into<(?:system::)?ContextId>>::into"), lambda i, a, d, m: _ctxid(a[0])),
     (R(r"<.* as Into<.*>>::into|<.* as From<.*>>::from"), n_identity),
